@@ -64,8 +64,11 @@ class Throws:
                 st = set(at.get((p, len(pb.elems)), frozenset()))
                 lab = cfg.edge_label(p, k)
                 if lab is not None:
-                    st |= set(ctx.cmp_fact(lab[0], lab[1]))
-                alts.append(frozenset(st))
+                    # a throw under !(a && b) / (a || b) evaluated as one value: one alternative per disjunct
+                    for conj in ctx.cmp_dnf(lab[0], lab[1]):
+                        alts.append(frozenset(st | set(conj)))
+                else:
+                    alts.append(frozenset(st))
         if not alts:
             alts = [frozenset(at.get(pos, frozenset()))]
         return alts
